@@ -56,7 +56,7 @@ inline ProdMenus prod_menus(bool thorough) {
         /*userinfo*/ {"", "u:p@", "@"},
         /*host*/ {"example.com", "EXAMPLE.com", "1.2.3.4", "0x7f.1", "a.0XAB", "[1::2]", EACUTE ".com", "a%2Eb", "LOCALHOST", "loc%61lhost", h16 + ".com", h17, ""},
         /*port*/ {"", ":80", ":443", ":008", ":00", ":1000"},
-        /*path*/ {"", "/", "/a/../b/./c", "/%2e%2E/x", "\\x\\y", "/" + h16 + "/" + h17},
+        /*path*/ {"", "/", "/a/../b/./c", "/a/../b/.c", "/%2e%2E/x", "\\x\\y", "/" + h16 + "/" + h17},
         /*query*/ {"", "?", "?a='" EACUTE " b"},
         /*fragment*/ {"", "#", "#f` \"<>"},
     };
@@ -71,7 +71,7 @@ inline ProdMenus prod_menus(bool thorough) {
                   h15, h16, h17, h31, h32, h33 + ".x", h48, "a.0XAB", "srv.0xFf.", "0X7F.1", "LOCALHOST", "loc%61lhost", "localhost", ""},
         /*port*/ {"", ":80", ":443", ":21", ":008", ":0", ":65535", ":65536", ":", ":8a", ":9", ":10", ":99", ":100", ":999", ":1000", ":9999", ":10000", ":00", ":0000000000000"},
         /*path*/ {"", "/", "/a/../b/./c", "/%2e%2E/x", "\\x\\y", "/" + h16 + "/" + h17, "/C:/x", "/C|/x", "/..", "/a/..", "//", "/.//x",
-                  "/a b", "/" EACUTE, "/%zz", "/" + h31 + "?", "x", "../x", "./", "/a;b=c"},
+                  "/a b", "/" EACUTE, "/%zz", "/" + h31 + "?", "x", "../x", "./", "/a;b=c", "/a/../b/.c", "/x/./y/.well-known/z", "/.a/../b", "/a/.../b/..c"},
         /*query*/ {"", "?", "?a='" EACUTE " b", "?q#", "??", "?" + h17},
         /*fragment*/ {"", "#", "#f` \"<>", "#" EACUTE, "##", "#" + h17},
     };
@@ -154,7 +154,7 @@ inline std::vector<OpVal> op_menu(bool thorough, bool with_clear) {
     add(SET_HOST, {"example.org", "h:99", "1.2.3.4", "1.2.3.4.5", "[::2]", "", "a b", "x/y", "0x10", EACUTE ".x"});
     add(SET_HOSTNAME, {"h2", "h:99", "", "2.3.4.5", "256.256.256.256", "[1::]"});
     add(SET_PORT, {"", "80", "443", "8080", "1000", "00", "99999", "1x"});
-    add(SET_PATHNAME, {"", "/", "//x", "/a/../b", "c d", "/C|/z", "?#"});
+    add(SET_PATHNAME, {"", "/", "//x", "/a/../b", "/a/./b/.c", "\\a", "c d", "/C|/z", "?#"});
     add(SET_SEARCH, {"", "?", "a=b c", "\n?y"});
     add(SET_HASH, {"", "#", "h h", "\t#x"});
     add(SET_HREF, {"http://new/", "a:b", "bad"});
@@ -167,7 +167,7 @@ inline std::vector<OpVal> op_menu(bool thorough, bool with_clear) {
     add(SET_HOSTNAME, {"h2", "h:99", "", "2.3.4.5", "[1::]", "a b", "x/y", "x\\y", "0x10", EACUTE ".y", "h\n3", "u@h", ":1", "1.2.3.4.",
                        "[::1", "a%41", "A", "x?y", "x#y", "4294967296"});
     add(SET_PORT, {"", "80", "443", "21", "8080", "0", "00090", "65535", "65536", "99999", "1x", "x", "8\t1", "9", "10", "100", "1000", "10000", "00", "000x"});
-    add(SET_PATHNAME, {"", "/", "//x", "/.//x", "/a/../b", "c d", "/C|/z", "C:/q", "?#", "/%2e/x", "\\a\\b", "/" EACUTE, "..", "/a/b/c/", "x", "/ "});
+    add(SET_PATHNAME, {"", "/", "//x", "/.//x", "/a/../b", "c d", "/C|/z", "C:/q", "?#", "/%2e/x", "\\a\\b", "\\a", "/a/../b/.c", "/" EACUTE, "..", "/a/b/c/", "x", "/ "});
     add(SET_SEARCH, {"", "?", "a=b c", "?x'y", "#", EACUTE, "??", "q\t", "\n?y", "?\tz"});
     add(SET_HASH, {"", "#", "h h", "##", "`<>\"", EACUTE, "\t#x", "#\ty", "\n"});
     add(SET_HREF, {"http://new/", "a:b", "bad", "file:///D:/", "a://x:2/y?z#w"});
